@@ -11,7 +11,10 @@ logging.disable(logging.CRITICAL)
 from mutwo import core_parameters as cp  # noqa: E402
 
 TICK = 10**10
-JUNK = ["abc", "", "1.2.3", "1/2/3", "x/2", "--1", "a.b", "1,5", "one", "1/0"]
+JUNK = ["abc", "", "1.2.3", "1/2/3", "x/2", "--1", "a.b", "1,5", "one", "1/0",
+        # strings that are Python literals of the wrong kind, or that make the literal parser itself fail in other ways
+        # (entries 7 and 17 are malformed point lists: finding F5)
+        "{[0, 60], [1, 30]}", "{[0, 60]: 1}", "{{60}}", "([0, 60], {[1, 30]})", "None", "{1: 2}", "[1,2", "[1]", "1 2", "(1"]
 OTHER = [None, {}, object(), set(), b"1", 1j]
 
 
